@@ -3,7 +3,7 @@
    hold for every zlib level, for dependent and independent deflation, and for streams that mix
    compressed Messages with Messages too small to be compressed. *)
 From Coq Require Import List NArith ZArith Bool Lia ZifyBool.
-From Muscle Require Import Gen.Consts Gw.GwBase Gw.GwLemmas Gw.FrameModel Gw.ZlibModel Gw.TransportProofs Gw.FrameProofs.
+From Muscle Require Import Gen.Consts Gw.GwBase Gw.GwLemmas Gw.FrameModel Gw.ZlibModel Gw.TransportProofs Gw.FrameProofs Gw.FrameDefault.
 Import ListNotations.
 Local Open Scope N_scope.
 
@@ -65,9 +65,9 @@ Section ZlibProofs.
   Qed.
 
   Lemma z_codec_sync cs cr m : z_sync cs cr -> z_wfb m ->
-    exists payload enc cr',
-      snd (z_flat cs m) = le32 (blen payload) ++ le32 enc ++ payload /\
-      c_MUSCLE_MESSAGE_ENCODING_DEFAULT <= enc <= c_MUSCLE_MESSAGE_ENCODING_END_MARKER - 1 /\
+    exists hdr payload cr',
+      snd (z_flat cs m) = hdr ++ payload /\ blen hdr = f_hs /\
+      d_body_size hdr = Some (blen payload) /\
       blen payload <= max_in /\ f_hs + blen payload < two32 /\
       z_unflat cr (snd (z_flat cs m)) = (cr', Some m) /\ z_sync (fst (z_flat cs m)) cr'.
   Proof.
@@ -92,8 +92,9 @@ Section ZlibProofs.
       assert (Henc : z_enc1 + z_level - 1 = oenc).
       { unfold z_level. unfold z_in_range in Erange. lia. }
       rewrite Henc.
-      exists payload, oenc, (Some (z_level, is')).
-      split; [reflexivity|]. split; [apply z_range_in_gateway_range; exact Erange|].
+      exists (le32 (blen payload) ++ le32 oenc), payload, (Some (z_level, is')).
+      split; [now rewrite <- app_assoc|]. split; [reflexivity|].
+      split; [apply d_body_size_hdr; [rewrite f_hs_is_8 in *; lia|apply z_range_in_gateway_range; exact Erange]|].
       split; [lia|]. split; [lia|]. split; [|cbn; auto].
       (* the receiver side *)
       unfold ZlibModel.z_unflat.
@@ -128,8 +129,9 @@ Section ZlibProofs.
       rewrite E11, Hinf. reflexivity.
     - (* sent as it is, DEFAULT header, codecs untouched *)
       cbn [fst snd].
-      exists m, c_MUSCLE_MESSAGE_ENCODING_DEFAULT, cr.
-      split; [reflexivity|]. split; [vm_compute; split; discriminate|].
+      exists (le32 (blen m) ++ le32 c_MUSCLE_MESSAGE_ENCODING_DEFAULT), m, cr.
+      split; [now rewrite <- app_assoc|]. split; [reflexivity|].
+      split; [apply d_body_size_hdr; [rewrite f_hs_is_8 in *; lia|vm_compute; split; discriminate]|].
       split; auto. split; auto. split; [|exact Hs].
       unfold ZlibModel.z_unflat.
       assert (E1 : rd32 (le32 (blen m) ++ le32 c_MUSCLE_MESSAGE_ENCODING_DEFAULT ++ m) = blen m).
@@ -143,13 +145,13 @@ Section ZlibProofs.
   Qed.
 
   Notation zd_run := (sys_run fs_queue (z_do_output DS ds_init deflate oenc indep) (z_do_input IS is_init inflate max_in)).
-  Definition z_sys0 := f_sys0 (zcs DS) (zcr IS) None None.
-  Definition z_rem := fs_rem (zcs DS) z_flat.
+  Definition z_sys0 := f_sys0 bytes (zcs DS) (zcr IS) None None.
+  Definition z_rem := fs_rem bytes (zcs DS) z_flat.
 
   Theorem z_prefix_safety (evs : list (event bytes)) :
     Forall (ev_wf z_wfb) evs -> exists tl, ev_msgs evs = s_dlv (zd_run z_sys0 evs) ++ tl.
   Proof.
-    exact (frame_prefix_safety (zcs DS) (zcr IS) z_flat z_unflat max_in None None z_flat_len z_sync z_wfb I z_codec_sync evs).
+    exact (frame_prefix_safety bytes (zcs DS) (zcr IS) z_flat z_unflat d_body_size max_in None None z_flat_len z_sync z_wfb I z_codec_sync evs).
   Qed.
 
   Theorem z_completeness (evs : list (event bytes)) :
@@ -157,7 +159,7 @@ Section ZlibProofs.
     z_rem (s_snd (zd_run z_sys0 evs)) = [] -> s_pipe (zd_run z_sys0 evs) = [] ->
     s_dlv (zd_run z_sys0 evs) = ev_msgs evs.
   Proof.
-    exact (frame_completeness (zcs DS) (zcr IS) z_flat z_unflat max_in None None z_flat_len z_sync z_wfb I z_codec_sync evs).
+    exact (frame_completeness bytes (zcs DS) (zcr IS) z_flat z_unflat d_body_size max_in None None z_flat_len z_sync z_wfb I z_codec_sync evs).
   Qed.
 
   Theorem z_fair_completion (evs : list (event bytes)) (rs : list (list (event bytes))) :
@@ -166,6 +168,6 @@ Section ZlibProofs.
     let st := zd_run z_sys0 (evs ++ concat rs) in
     quiet z_rem st /\ s_dlv st = ev_msgs evs.
   Proof.
-    exact (frame_fair_completion (zcs DS) (zcr IS) z_flat z_unflat max_in None None z_flat_len z_sync z_wfb I z_codec_sync evs rs).
+    exact (frame_fair_completion bytes (zcs DS) (zcr IS) z_flat z_unflat d_body_size max_in None None z_flat_len z_sync z_wfb I z_codec_sync evs rs).
   Qed.
 End ZlibProofs.
